@@ -403,7 +403,7 @@ def run(ctx):
     depth = 1 if ctx.quick else 2
     if not selftest_or_inconclusive(ctx):
         return
-    for i in ctx.cases(300, 12000):
+    for i in ctx.cases(600, 12000):
         run_case(ctx, i, depth)
 
 
